@@ -984,7 +984,11 @@ impl MerkleTree {
         let mut bytes = bytes;
         match offset_or_instructions {
             Either::Left(new_instructions) => {
-                instructions.extend(new_instructions);
+                // The byte offset of the subtree is not known yet, so the remaining bytes cannot
+                // be computed: nothing can be decided in this pass (deciding on the unreduced
+                // offset with whatever nodes happen to be in memory or in the node cache would
+                // seek into the wrong place).
+                return Ok(Either::Left(new_instructions));
             }
             Either::Right(offset) => {
                 if offset > bytes {
@@ -999,7 +1003,8 @@ impl MerkleTree {
                 let node_or_instruction = self.required_node(root, nodes)?;
                 match node_or_instruction {
                     Either::Left(instruction) => {
-                        instructions.push(instruction);
+                        // Validate against the subtree's size once it has been read.
+                        return Ok(Either::Left(vec![instruction]));
                     }
                     Either::Right(node) => {
                         if node.length <= bytes {
